@@ -332,6 +332,9 @@ pub enum Shape {
     /// Run right below the depth at which the runtime starts to report "Stack overflow",
     /// this measures the head-room the guard leaves for unguarded native recursion.
     Edge { link: Link, op: DataOp, data_depth: u64 },
+    /// (A') an unbounded cycle whose program is handed to `naija -` on standard input (another
+    /// entry path above the point where the runtime anchors its stack budget)
+    Stdin { links: Vec<Link> },
 }
 
 const BUILD_DATA: &str = "make a get [0]\nmake i get 0\njasi (i small pass %D%) start\n    a get [a]\n    i get i add 1\nend\n";
@@ -354,7 +357,16 @@ impl Shape {
             }
             Shape::Data { op } => format!("nested-data-{}", op.name()),
             Shape::Edge { op, .. } => format!("guard-edge-{}", op.name()),
+            Shape::Stdin { links } => {
+                let names: Vec<&str> = links.iter().map(|l| l.name()).collect();
+                format!("stdin:recursion({})", names.join("+"))
+            }
         }
+    }
+
+    /// A recursion without a base case (the depth parameter is unused; it cannot end normally).
+    pub fn is_unbounded(&self) -> bool {
+        matches!(self, Shape::Cycle { bounded: false, .. } | Shape::Stdin { .. })
     }
 
     pub fn family(&self) -> &'static str {
@@ -364,18 +376,19 @@ impl Shape {
             Shape::Cycle { bounded: false, .. } => "A recursion cycle (unbounded)",
             Shape::Data { .. } => "C run-time data nesting",
             Shape::Edge { .. } => "D guard-edge probe",
+            Shape::Stdin { .. } => "A recursion cycle (unbounded, program on standard input)",
         }
     }
 
     /// Does the depth parameter change the program?
     pub fn uses_depth(&self) -> bool {
-        !matches!(self, Shape::Cycle { bounded: false, .. })
+        !self.is_unbounded()
     }
 
     pub fn max_depth(&self) -> u64 {
         match self {
             Shape::Data { .. } => MAX_DATA_DEPTH,
-            Shape::Cycle { .. } => 1_000_000,
+            Shape::Cycle { .. } | Shape::Stdin { .. } => 1_000_000,
             Shape::Edge { .. } => EDGE_MAX_DEPTH,
             Shape::Nest { .. } => {
                 // largest depth whose source stays within MAX_SOURCE (linear estimate)
@@ -397,6 +410,8 @@ impl Shape {
             Shape::Data { op } => json!({"family": "data", "op": op.name()}),
             Shape::Edge { link, op, data_depth } => json!({
                 "family": "guard-edge", "link": link.to_json(), "op": op.name(), "data_depth": data_depth}),
+            Shape::Stdin { links } => json!({
+                "family": "cycle-stdin", "links": links.iter().map(|l| l.to_json()).collect::<Vec<_>>()}),
         }
     }
 
@@ -416,6 +431,16 @@ impl Shape {
                 }
                 Some(Shape::Cycle { links, bounded: j.get("bounded")?.as_bool()? })
             }
+            "cycle-stdin" => {
+                let mut links = Vec::new();
+                for l in j.get("links")?.as_array()? {
+                    links.push(Link::from_json(l)?);
+                }
+                if links.is_empty() {
+                    return None;
+                }
+                Some(Shape::Stdin { links })
+            }
             "data" => Some(Shape::Data { op: DataOp::parse(j.get("op")?.as_str()?)? }),
             "guard-edge" => Some(Shape::Edge {
                 link: Link::from_json(j.get("link")?)?,
@@ -428,6 +453,9 @@ impl Shape {
 
     /// The program text (first statement prints the marker).
     pub fn source(&self, depth: u64) -> String {
+        if let Shape::Stdin { links } = self {
+            return Shape::Cycle { links: links.clone(), bounded: false }.source(depth);
+        }
         let mut s = String::from(MARKER_STMT);
         let d = depth;
         match self {
@@ -499,12 +527,30 @@ impl Shape {
                         rep(&mut s, m, d);
                         s.push_str("\nshout(x)\n");
                     }
-                    Nest::Blocks => {
-                        rep(&mut s, "start ", d);
-                        s.push_str("shout(1) ");
-                        rep(&mut s, "end ", d);
-                        s.push('\n');
-                    }
+                    Nest::Blocks => match v % 3 {
+                        // bare blocks only
+                        0 => {
+                            rep(&mut s, "start ", d);
+                            s.push_str("shout(1) ");
+                            rep(&mut s, "end ", d);
+                            s.push('\n');
+                        }
+                        // every level has a statement *after* its inner block (it runs on the way back)
+                        1 => {
+                            s.push_str("make bt get 0\n");
+                            rep(&mut s, "start ", d);
+                            s.push_str("shout(1) ");
+                            rep(&mut s, "bt get 1 end ", d);
+                            s.push('\n');
+                        }
+                        // every level starts with a function definition (nothing is evaluated for it)
+                        _ => {
+                            rep(&mut s, "start do bd() start end ", d);
+                            s.push_str("shout(1) ");
+                            rep(&mut s, "end ", d);
+                            s.push('\n');
+                        }
+                    },
                     Nest::Ifs => {
                         rep(&mut s, "if to say (true) start ", d);
                         s.push_str("shout(1) ");
@@ -649,6 +695,7 @@ impl Shape {
                 link.body("f0(n add 1)", &mut s);
                 s.push_str("end\nshout(f0(0))\n");
             }
+            Shape::Stdin { .. } => unreachable!("handled above"),
         }
         s
     }
@@ -725,7 +772,15 @@ pub fn evaluate(shape: &Shape, depth: u64, build: Build) -> Verdict {
     }
     drop(src);
     let mut run = proc::Run::new(&exe);
-    run.args = vec![OsString::from(&path)];
+    if matches!(shape, Shape::Stdin { .. }) {
+        run.args = vec![OsString::from("-")];
+        run.stdin = proc::StdinPlan::Pipe(vec![proc::Chunk {
+            bytes: std::fs::read(&path).unwrap_or_default(),
+            pause_ms: 0,
+        }]);
+    } else {
+        run.args = vec![OsString::from(&path)];
+    }
     run.timeout = Duration::from_secs(TIMEOUT_S);
     run.stack_bytes = 8 << 20;
     // A diagnostic quotes the offending source line, which can be megabytes long.
@@ -811,7 +866,7 @@ fn failure_of(shape: &Shape, depth: u64, build: Build, bisected: Option<u64>, v:
             input: input_json(shape, depth, build, bisected),
         }),
         // a recursion without a base case cannot end normally: the depth error was lost
-        Verdict::Completed if matches!(shape, Shape::Cycle { bounded: false, .. }) => Some(Failure {
+        Verdict::Completed if shape.is_unbounded() => Some(Failure {
             sig: format!("unbounded-recursion-ended-normally|{construct}|{b}"),
             what: format!(
                 "{b} naija on {construct}: the recursion has no base case, yet the run ended with exit status 0 and no diagnostic (the 'Stack overflow' error was swallowed)"
@@ -909,6 +964,14 @@ pub fn work_list(seed: u64, tier: Tier) -> Vec<Unit> {
             }
         }
     }
+    // block nesting in its three flavours, always (bare; statement after the inner block;
+    // function definition before it)
+    for variant in 0..3u8 {
+        let s = Shape::Nest { kind: Nest::Blocks, variant };
+        if !shapes.contains(&s) {
+            shapes.push(s);
+        }
+    }
     // (C) every operation on nested data
     for op in DATA_OPS {
         shapes.push(Shape::Data { op });
@@ -976,6 +1039,15 @@ pub fn work_list(seed: u64, tier: Tier) -> Vec<Unit> {
     ] {
         shapes.push(Shape::Cycle { links, bounded: false });
     }
+    // the same kind of program handed over on standard input
+    for links in [
+        vec![Link::TailCall],
+        vec![Link::OperandRight],
+        vec![Link::Cond, Link::OperandLeft],
+        vec![Link::UserArg, Link::Interp],
+    ] {
+        shapes.push(Shape::Stdin { links });
+    }
     if tier == Tier::Thorough {
         for l in singles {
             for bounded in [true, false] {
@@ -1001,7 +1073,7 @@ pub fn work_list(seed: u64, tier: Tier) -> Vec<Unit> {
             Shape::Nest { .. } => tier.pick(4, 6),
             Shape::Data { .. } => tier.pick(3, 5),
             Shape::Cycle { bounded: true, .. } => tier.pick(3, 5),
-            Shape::Cycle { bounded: false, .. } => 1,
+            Shape::Cycle { bounded: false, .. } | Shape::Stdin { .. } => 1,
             Shape::Edge { .. } => 0,
         };
         let depths = if n == 0 {
@@ -1193,7 +1265,7 @@ fn run_unit(ctx: &mut ShardCtx, unit: &Unit) {
         let v = evaluate(shape, depth, build);
         count(ctx, shape, depth, build, &v);
         match &v {
-            Verdict::Completed if matches!(shape, Shape::Cycle { bounded: false, .. }) => {
+            Verdict::Completed if shape.is_unbounded() => {
                 if let Some(f) = failure_of(shape, depth, build, None, &v) {
                     ctx.handle("search", Outcome::Fail(f));
                 }
@@ -1339,7 +1411,7 @@ impl Check for C08 {
         let bisected = input["bisected_min_depth"].as_u64();
         let v = evaluate(&shape, depth, build);
         match &v {
-            Verdict::Completed if matches!(shape, Shape::Cycle { bounded: false, .. }) => {
+            Verdict::Completed if shape.is_unbounded() => {
                 match failure_of(&shape, depth, build, bisected, &v) {
                     Some(f) => Outcome::Fail(f),
                     None => Outcome::Pass,
